@@ -256,17 +256,22 @@ Qed.
 Lemma wf_parts_nonempty (cs : cells) : wf_cells cs -> Forall (fun c : list (list Z) => c <> []) cs.
 Proof. intro W. eapply Forall_impl; [|exact W]. intros c [H _]. exact H. Qed.
 
-Lemma decode_indexed_contiguous_cells (cs : cells) :
-  wf_cells cs ->
-  decode_indexed_contiguous (length cs) (cell_of_part_spec cs) (enc_part_node_count cs) (enc_nodes cs)
-  = pad3 cs.
+Lemma uniq_cell_index (cs : cells) :
+  wf_cells cs -> uniq (cell_of_part_spec cs) = seq 0 (length cs).
 Proof.
-  intro W. unfold decode_indexed_contiguous, cell_of_part_spec, pad3.
+  intro W. unfold cell_of_part_spec. rewrite uniq_blocks.
+  - rewrite map_length. reflexivity.
+  - apply Forall_map. eapply Forall_impl; [|exact (wf_parts_nonempty cs W)].
+    intros [|a r] Ha; simpl; [congruence|lia].
+Qed.
+
+Lemma decode_indexed_contiguous_ids_cells (cs : cells) :
+  wf_cells cs ->
+  decode_indexed_contiguous_ids (seq 0 (length cs)) (length cs) (cell_of_part_spec cs)
+    (enc_part_node_count cs) (enc_nodes cs) = pad3 cs.
+Proof.
+  intro W. unfold decode_indexed_contiguous_ids, cell_of_part_spec, pad3.
   rewrite (max_parts_blocks cs) by (apply wf_parts_nonempty; exact W).
-  rewrite uniq_blocks.
-  2:{ apply Forall_map. eapply Forall_impl; [|exact (wf_parts_nonempty cs W)].
-      intros [|a r] Ha; simpl; [congruence|lia]. }
-  rewrite map_length.
   rewrite enc_pnc_as_map.
   set (w2 := list_max (map (@length Z) (concat cs))).
   unfold enc_nodes. rewrite <- (app_nil_r (concat (concat cs))). rewrite split_by_concat.
@@ -276,6 +281,25 @@ Proof.
   replace (length cs) with (length (map (map (pad w2)) cs)) at 1 2 by apply map_length.
   rewrite select_blocks. rewrite rows_of_exact.
   rewrite !map_map. apply map_ext. intro c. rewrite !map_length. reflexivity.
+Qed.
+
+Lemma decode_indexed_contiguous_cells (cs : cells) :
+  wf_cells cs ->
+  decode_indexed_contiguous (length cs) (cell_of_part_spec cs) (enc_part_node_count cs) (enc_nodes cs)
+  = pad3 cs.
+Proof.
+  intro W. unfold decode_indexed_contiguous. rewrite uniq_cell_index by assumption.
+  apply decode_indexed_contiguous_ids_cells. assumption.
+Qed.
+
+Lemma read_bounds_range_cells (cs : cells) ring :
+  wf_cells cs ->
+  read_bounds_range (container_for cs true ring) (enc_nodes cs) = pad3 cs.
+Proof.
+  intro W. unfold read_bounds_range, read_bounds_range_gen, container_for, n_cells, nodes_per_geometry. simpl.
+  fold derive_index. rewrite derive_index_cells by assumption.
+  unfold enc_node_count at 1 2. rewrite !map_length.
+  apply decode_indexed_contiguous_ids_cells. assumption.
 Qed.
 
 Lemma read_bounds_cells (cs : cells) ring :
@@ -339,14 +363,11 @@ Proof.
 Qed.
 
 (* interior rings *)
-Lemma read_ring_cells (cs : cells) (rs : list (list Z)) :
+Lemma decode_indexed_ids_cells (cs : cells) (rs : list (list Z)) :
   wf_cells cs -> same_parts rs cs ->
-  read_ring (container_for cs true (Some rs)) = Some (pad2 rs).
+  decode_indexed_ids (seq 0 (length cs)) (length cs) (cell_of_part_spec cs) (concat rs) = pad2 rs.
 Proof.
-  intros W S. unfold read_ring, read_ring_gen, container_for, n_cells, nodes_per_geometry. simpl.
-  fold derive_index. rewrite derive_index_cells by assumption. f_equal.
-  unfold enc_node_count. rewrite map_length.
-  unfold decode_indexed, cell_of_part_spec, pad2.
+  intros W S. unfold decode_indexed_ids, cell_of_part_spec, pad2.
   unfold same_parts in S. rewrite <- S.
   assert (Forall (fun y : list Z => y <> []) rs) as Fr.
   { assert (Forall (fun n => 1 <= n) (map (@length Z) rs)) as F1.
@@ -354,9 +375,6 @@ Proof.
       intros [|a r] Ha; simpl; [congruence|lia]. }
     rewrite Forall_map in F1. eapply Forall_impl; [|exact F1]. intros [|a r] Ha; simpl in *; [lia|congruence]. }
   rewrite (max_parts_blocks rs) by assumption.
-  rewrite uniq_blocks.
-  2:{ apply Forall_map. eapply Forall_impl; [|exact Fr]. intros [|a r] Ha; simpl; [congruence|lia]. }
-  rewrite map_length.
   replace (length cs) with (length rs)
     by (rewrite <- (map_length (@length Z) rs), S; apply map_length).
   rewrite <- (map_map (fun v => select v (blocks 0 (map (@length Z) rs)) (concat rs)) (map Some)).
@@ -364,6 +382,27 @@ Proof.
   replace (length rs) with (length (map (map (@Some Z)) rs)) by apply map_length.
   rewrite rows_of_exact. rewrite map_map. apply map_ext. intro r.
   unfold pad. rewrite map_length. reflexivity.
+Qed.
+
+Lemma read_ring_cells (cs : cells) (rs : list (list Z)) :
+  wf_cells cs -> same_parts rs cs ->
+  read_ring (container_for cs true (Some rs)) = Some (pad2 rs).
+Proof.
+  intros W S. unfold read_ring, read_ring_gen, container_for, n_cells, nodes_per_geometry. simpl.
+  fold derive_index. rewrite derive_index_cells by assumption. f_equal.
+  unfold enc_node_count. rewrite map_length.
+  unfold decode_indexed. rewrite uniq_cell_index by assumption.
+  apply decode_indexed_ids_cells; assumption.
+Qed.
+
+Lemma read_ring_range_cells (cs : cells) (rs : list (list Z)) :
+  wf_cells cs -> same_parts rs cs ->
+  read_ring_range (container_for cs true (Some rs)) = Some (pad2 rs).
+Proof.
+  intros W S. unfold read_ring_range, read_ring_range_gen, container_for, n_cells, nodes_per_geometry. simpl.
+  fold derive_index. rewrite derive_index_cells by assumption. f_equal.
+  unfold enc_node_count. rewrite !map_length.
+  apply decode_indexed_ids_cells; assumption.
 Qed.
 
 (* shapes *)
@@ -665,4 +704,101 @@ Lemma example_decode :
 Proof.
   exists example_cells, example_rings. destruct example_wf as [W [N S]].
   splits; try assumption; vm_compute; reflexivity.
+Qed.
+
+(* ------------------------------------------------------------------------- *)
+(* the independent decoder of Spec.v recovers the cells from their encoding   *)
+(* ------------------------------------------------------------------------- *)
+Lemma take_parts_spec ls : forall rest acc need,
+  ls <> [] -> Forall (fun n => 1 <= n) ls -> acc + sum ls = need ->
+  take_parts (ls ++ rest) need acc = Some (ls, rest).
+Proof.
+  induction ls as [|p r IH]; intros rest acc need Hne F E; [congruence|].
+  inversion F as [|? ? Hp Fr]; subst. simpl in *.
+  destruct r as [|q r'].
+  - simpl in *. replace (Nat.eqb (acc + p) (acc + (p + 0))) with true
+      by (symmetry; apply Nat.eqb_eq; lia). reflexivity.
+  - assert (1 <= sum (q :: r')) by (inversion Fr; subst; simpl; lia).
+    replace (Nat.eqb (acc + p) (acc + (p + sum (q :: r')))) with false
+      by (symmetry; apply Nat.eqb_neq; lia).
+    replace (acc + (p + sum (q :: r')) <? acc + p) with false
+      by (symmetry; apply Nat.ltb_ge; lia).
+    rewrite (IH rest (acc + p) (acc + (p + sum (q :: r')))); [reflexivity|congruence|assumption|lia].
+Qed.
+
+Lemma group_cells (cs : cells) :
+  wf_cells cs -> group (enc_node_count cs) (enc_part_node_count cs) = Some (map (map (@length Z)) cs).
+Proof.
+  intro W. induction cs as [|c r IH]; [reflexivity|].
+  inversion W as [|? ? [Hc Fc] Wr]; subst.
+  unfold enc_node_count, enc_part_node_count in *. cbn [map concat group].
+  rewrite (take_parts_spec (map (@length Z) c)); [| | |reflexivity].
+  2:{ destruct c; simpl; congruence. }
+  2:{ apply Forall_map. eapply Forall_impl; [|exact Fc]. intros [|a p] Ha; simpl; [congruence|lia]. }
+  rewrite IH by assumption. reflexivity.
+Qed.
+
+Lemma spec_decode_cells (cs : cells) :
+  wf_cells cs -> spec_decode (enc_node_count cs) (enc_part_node_count cs) (enc_nodes cs) = Some cs.
+Proof.
+  intro W. unfold spec_decode. rewrite group_cells by assumption. simpl. f_equal.
+  rewrite enc_pnc_as_map. unfold enc_nodes.
+  rewrite <- (app_nil_r (concat (concat cs))), split_by_concat.
+  rewrite map_map.
+  replace (map (fun x : list (list Z) => length (map (@length Z) x)) cs) with (map (@length (list Z)) cs)
+    by (apply map_ext; intro; symmetry; apply map_length).
+  rewrite <- (app_nil_r (concat cs)). apply split_by_concat.
+Qed.
+
+Lemma single_part_counts (ps : list (list Z)) :
+  enc_node_count (map (fun p => [p]) ps) = enc_part_node_count (map (fun p => [p]) ps).
+Proof.
+  unfold enc_node_count, enc_part_node_count. rewrite !map_map. simpl.
+  induction ps as [|p r IH]; simpl; [reflexivity|]. rewrite IH. f_equal. lia.
+Qed.
+
+(* what the writer produces decodes, independently of the reader, to the cells *)
+Lemma written_decodes (cs : cells) :
+  wf_cells cs -> cs <> [] ->
+  (exists w, write (pad3 cs) None = Ok w /\ spec_decode_container (container_of w) (w_nodes w) = Some cs) /\
+  (forall rs, same_parts rs cs ->
+   exists w, write (pad3 cs) (Some (pad2 rs)) = Ok w /\
+             spec_decode_container (container_of w) (w_nodes w) = Some cs /\
+             option_map (split_by (map (@length (list Z)) cs)) (w_ring w) = Some rs).
+Proof.
+  intros W H. split.
+  - rewrite write_cells_no_ring by assumption. eexists. split; [reflexivity|].
+    unfold spec_decode_container, container_of, nodes_per_geometry. simpl.
+    destruct (Nat.eqb (list_max (map (@length (list Z)) cs)) 1) eqn:E; simpl.
+    + apply Nat.eqb_eq in E. pose proof (single_part_of_max cs W E) as S.
+      rewrite S at 2. rewrite single_part_counts. rewrite <- S. apply spec_decode_cells. assumption.
+    + apply spec_decode_cells. assumption.
+  - intros rs S. rewrite write_cells_ring by assumption. eexists. split; [reflexivity|].
+    unfold spec_decode_container, container_of, nodes_per_geometry. simpl. split.
+    + apply spec_decode_cells. assumption.
+    + f_equal. unfold same_parts in S. rewrite <- S.
+      rewrite <- (app_nil_r (concat rs)). apply split_by_concat.
+Qed.
+
+(* reading then writing a conformant container reproduces its raw variables *)
+Lemma decode_encode (cs : cells) :
+  wf_cells cs -> cs <> [] ->
+  write (read_bounds (container_for cs true None) (enc_nodes cs)) None =
+    Ok {| w_nodes := enc_nodes cs; w_nc := enc_node_count cs;
+          w_pnc := if Nat.eqb (list_max (map (@length (list Z)) cs)) 1 then None
+                   else Some (enc_part_node_count cs);
+          w_ring := None |} /\
+  forall rs, same_parts rs cs ->
+  match read_ring (container_for cs true (Some rs)) with
+  | Some r =>
+      write (read_bounds (container_for cs true (Some rs)) (enc_nodes cs)) (Some r) =
+        Ok {| w_nodes := enc_nodes cs; w_nc := enc_node_count cs;
+              w_pnc := Some (enc_part_node_count cs); w_ring := Some (concat rs) |}
+  | None => False
+  end.
+Proof.
+  intros W H. split.
+  - rewrite read_bounds_cells by assumption. apply write_cells_no_ring; assumption.
+  - intros rs S. rewrite read_ring_cells by assumption. rewrite read_bounds_cells by assumption.
+    apply write_cells_ring; assumption.
 Qed.
